@@ -305,3 +305,197 @@ Example C06_cvarint_example :
   (match cvarint [1; 172; 2; 9] (mkst 1 0 0 []) with VOk v n _ => (v, n) | _ => (0, 0) end) = (300, 2) /\
   varint_dec [172; 2; 9] = (300, 2).
 Proof. vm_compute. split; reflexivity. Qed.
+
+(* ================================================================== 7. refinement: cursor machines = list models *)
+(* The machines above are the SAME functions as the list-based models that carry the round-trip theorems
+   (C19 ThriftWire.skip / decode, C07 ProtoMsg.wdec).  Proofs: proofs/RobustRefine.v.
+   suffix bs s = skipn (Z.to_nat (cur s)) bs, the part of the input not yet consumed. *)
+From DG Require Import RobustRefine.
+
+(* (A) Thrift SkipGo.  bytes_ok and |bs| < 2^31 are needed for one reason only: the code (and the cursor
+   machine) reads a string length as int(uint32), ThriftWire.skipstr as a signed int32; they agree exactly
+   when no length >= 2^31 can fit in the buffer. *)
+Theorem C06_skip_refines :
+  forall bs t, bytes_ok bs -> zlen bs < 2 ^ 31 ->
+  match skip_go_m t bs with
+  | Ok s => skip_go t bs = Some (skipn (Z.to_nat (cur s)) bs)
+  | Er _ _ => skip_go t bs = None
+  | _ => False
+  end.
+Proof. intros bs t Hb Hl. exact (skip_refines bs Hb Hl t). Qed.
+Print Assumptions C06_skip_refines.
+
+(* general form: any start state in bounds, any depth budget, any fuel *)
+Theorem C06_skip_refines_general :
+  forall bs, bytes_ok bs -> zlen bs < 2 ^ 31 ->
+  forall fuel t d s, inv bs s ->
+  match srun bs fuel (KVal t d) s with
+  | Ok s' => skip (Z.to_nat d) t (suffix bs s) = Some (suffix bs s')
+  | Er _ _ => skip (Z.to_nat d) t (suffix bs s) = None
+  | OutOfFuel => True
+  | _ => False
+  end.
+Proof. exact srun_ref_val. Qed.
+Print Assumptions C06_skip_refines_general.
+
+Example C06_skip_refines_example :
+  let bs := [11; 0; 1; 0; 0; 0; 2; 104; 105; 13; 0; 2; 8; 11; 0; 0; 0; 1; 0; 0; 0; 7; 0; 0; 0; 1; 120; 0; 9; 9] in
+  verdict (skip_go_m T_STRUCT bs) = (0, 28, 2) /\ skip_go T_STRUCT bs = Some [9; 9] /\
+  verdict (skip_go_m T_MAP [11; 12; 255; 255; 255; 255]) = (E_SIZE, 6, 1) /\ skip_go T_MAP [11; 12; 255; 255; 255; 255] = None.
+Proof. vm_compute. repeat split; reflexivity. Qed.
+
+(* (C) protobuf: Skip(wireType) with the length test first = ProtoMsg.wdec_val on the suffix, for the four
+   wire types the wire model knows; no hypothesis on the bytes *)
+From DG Require Import ProtoMsg.
+
+Theorem C06_pskip_refines_wdec_val :
+  forall bs wt s, inv bs s -> (wt = 0 \/ wt = 1 \/ wt = 2 \/ wt = 5) ->
+  match pskip bs false wt s with
+  | Ok s' => exists v, wdec_val wt (suffix bs s) = Some (v, suffix bs s')
+  | Er _ _ => wdec_val wt (suffix bs s) = None
+  | _ => False
+  end.
+Proof. exact pskip_ref. Qed.
+Print Assumptions C06_pskip_refines_wdec_val.
+
+(* remark: for the other wire types (groups 3/4, reserved 6/7) the code returns nil without consuming
+   anything, while the wire model rejects them — the machine is more lenient there *)
+Theorem C06_pskip_other_wire_types :
+  forall bs wt s coded, wt <> 0 -> wt <> 1 -> wt <> 2 -> wt <> 5 ->
+  pskip bs coded wt s = Ok s /\ forall l, wdec_val wt l = None.
+Proof. exact pskip_other_wt. Qed.
+Print Assumptions C06_pskip_other_wire_types.
+
+(* whatever the wire decoder accepts, the unknown-field loop walks to the very end (only this direction:
+   the loop also accepts field numbers up to 2^31-1 and the lenient wire types) *)
+Theorem C06_wdec_accepts_implies_pfields :
+  forall bs w, wdec bs = Some w -> exists s, pfields_m false bs = Ok s /\ cur s = zlen bs.
+Proof. exact wdec_accepts_implies_pfields. Qed.
+Print Assumptions C06_wdec_accepts_implies_pfields.
+
+(* general form: from any state in bounds, any list fuel of the decoder, any fuel of the machine *)
+Theorem C06_wdec_loop_implies_pfields :
+  forall bs f lf s w, inv bs s -> wdec_loop lf (suffix bs s) = Some w ->
+  match pfields bs false f s with Ok s' => cur s' = zlen bs | OutOfFuel => True | _ => False end.
+Proof. exact pfields_ref. Qed.
+Print Assumptions C06_wdec_loop_implies_pfields.
+
+Example C06_proto_refines_example :
+  let bs := [8; 150; 1; 18; 2; 104; 105; 45; 1; 2; 3; 4] in
+  wdec bs = Some [(1, WVarint 150); (2, WBytes [104; 105]); (5, WFix32 67305985)] /\
+  verdict (pfields_m false bs) = (0, 12, 0) /\
+  (* more lenient: a group-start tag (field 1, wire type 3) is walked over by the loop, rejected by wdec *)
+  wdec [11] = None /\ verdict (pfields_m false [11]) = (0, 1, 0).
+Proof. vm_compute. repeat split; reflexivity. Qed.
+
+(* (B) Thrift reader vs decoder: whatever ReadAny accepts, ThriftWire.decode (the decoder of the C19
+   round-trip theorems) decodes to some value with exactly the same remaining input.  Only this direction:
+   the reader is stricter (it validates element-type bytes even of empty containers).  No hypothesis on
+   the bytes; depth budget of the decoder = nesting limit of the reader (|bs| + 1 as coded). *)
+Theorem C06_reader_refines_decode :
+  forall bs t s, read_any_coded t bs = Ok s ->
+  exists v, decode (S (length bs)) t bs = Some (v, skipn (Z.to_nat (cur s)) bs).
+Proof. exact reader_refines_decode. Qed.
+Print Assumptions C06_reader_refines_decode.
+
+Theorem C06_reader_clamped_refines_decode :
+  forall bs t s, read_any_clamped t bs = Ok s ->
+  exists v, decode max_skip_depth t bs = Some (v, skipn (Z.to_nat (cur s)) bs).
+Proof. exact reader_clamped_refines_decode. Qed.
+Print Assumptions C06_reader_clamped_refines_decode.
+
+(* general form: any hint policy, any nesting limit, any fuel, any start state in bounds *)
+Theorem C06_reader_refines_decode_general :
+  forall bs clamp lim fuel t d s s', inv bs s ->
+  rrun bs clamp lim fuel (RVal t d) s = Ok s' ->
+  exists v, decode (Z.to_nat d) t (suffix bs s) = Some (v, suffix bs s').
+Proof. exact rrun_ref_val. Qed.
+Print Assumptions C06_reader_refines_decode_general.
+
+Example C06_reader_refines_example :
+  let bs := [11; 0; 1; 0; 0; 0; 2; 104; 105; 13; 0; 2; 8; 11; 0; 0; 0; 1; 0; 0; 0; 7; 0; 0; 0; 1; 120; 0; 9] in
+  verdict (read_any_coded T_STRUCT bs) = (0, 28, 3) /\
+  decode (S (length bs)) T_STRUCT bs =
+    Some (ThriftWire.VStruct [(1, ThriftWire.VString [104; 105]);
+                              (2, ThriftWire.VMap 8 11 [(ThriftWire.VI32 7, ThriftWire.VString [120])])], [9]) /\
+  (* stricter: an empty list whose element-type byte is invalid is rejected by the reader, decoded by the model *)
+  verdict (read_any_coded T_LIST [99; 0; 0; 0; 0]) = (E_TYPE, 1, 1) /\
+  decode 6 T_LIST [99; 0; 0; 0; 0] = Some (ThriftWire.VList 99 [], []).
+Proof. vm_compute. repeat split; reflexivity. Qed.
+
+(* ================================================================================================================
+   Totality of the list-based byte walkers on ARBITRARY bytes (proofs/RobustWalkProofs.v).
+   These models read with take/skipn/varint_dec: a read past the end is None BY CONSTRUCTION (no OverRead to exclude).
+   Their loops run on a fuel the model gives itself; a None answer therefore conflates "rejected" with "fuel exhausted".
+   The theorems below say the second never happens: every fuel above |bs| (and every nesting budget above the height of
+   the descriptor / half the number of bytes) gives the SAME answer, because every loop iteration consumes >= 1 byte or
+   returns; and what is handed back lies inside the buffer.
+   ================================================================================================================ *)
+From DG Require Import ThriftGeneric T2J T2JBytes P2J P2JBytes RobustWalkProofs.
+
+(* ---- thrift/generic get_by_path (ThriftGeneric.v) ---- *)
+Theorem C06_skip_go_progress :
+  forall t bs r, skip_go t bs = Some r -> exists n, (1 <= n <= length bs)%nat /\ r = skipn n bs.
+Proof. exact skip_go_suffix. Qed.
+Print Assumptions C06_skip_go_progress.
+
+Theorem C06_search_field_fuel_stable :
+  forall f f' id bs off, (length bs < f)%nat -> (length bs < f')%nat ->
+  search_field f id bs off = search_field f' id bs off.
+Proof. exact search_field_fuel_stable. Qed.
+Print Assumptions C06_search_field_fuel_stable.
+
+(* get_by_path_f: the same walk with ONE explicit fuel used at every step of the path *)
+Theorem C06_get_by_path_total :
+  forall p f t bs off, (length bs < f)%nat -> get_by_path_f f t bs off p = get_by_path t bs off p.
+Proof. exact get_by_path_total. Qed.
+Print Assumptions C06_get_by_path_total.
+
+Theorem C06_get_by_path_in_bounds :
+  forall p t bs off t' s e, get_by_path t bs off p = GFound t' s e -> off <= s /\ s < e /\ e <= off + zlen bs.
+Proof. exact get_by_path_in_bounds. Qed.
+Print Assumptions C06_get_by_path_in_bounds.
+
+(* ---- conv/t2j byte walk (T2JBytes.v) ---- *)
+Theorem C06_t2j_walk_progress :
+  forall fd o n d bs txt r, t2j_walk_gen fd o n d bs = Some (txt, r) -> (length r < length bs)%nat.
+Proof. exact t2j_walk_shrinks. Qed.
+Print Assumptions C06_t2j_walk_progress.
+
+Theorem C06_t2j_walk_depth_stable :
+  forall fd o n n' d bs, (desc_height d <= n)%nat -> (desc_height d <= n')%nat ->
+  t2j_walk_gen fd o n d bs = t2j_walk_gen fd o n' d bs.
+Proof. exact t2j_walk_depth_stable. Qed.
+Print Assumptions C06_t2j_walk_depth_stable.
+
+(* t2j_walk_f: the walk with an explicit field-loop fuel lf; |bs| + 1 and the height of the descriptor suffice *)
+Theorem C06_t2j_walk_total :
+  forall fd o lf lf' n n' d bs,
+  (length bs < lf)%nat -> (length bs < lf')%nat -> (desc_height d <= n)%nat -> (desc_height d <= n')%nat ->
+  t2j_walk_f fd o lf n d bs = t2j_walk_f fd o lf' n' d bs /\ t2j_walk_f fd o lf n d bs = t2j_walk_gen fd o n' d bs.
+Proof. exact t2j_walk_total. Qed.
+Print Assumptions C06_t2j_walk_total.
+
+(* ---- conv/p2j byte walk (P2JBytes.v) ---- *)
+Theorem C06_wdec_val_progress :
+  forall wt bs v r, wdec_val wt bs = Some (v, r) -> (length r < length bs)%nat.
+Proof. exact wdec_val_shrinks. Qed.
+Print Assumptions C06_wdec_val_progress.
+
+Theorem C06_p2j_walk_depth_stable :
+  forall fl o Sc f f' name body, (length body < f)%nat -> (length body < f')%nat ->
+  walk_msg fl o Sc f name body = walk_msg fl o Sc f' name body.
+Proof. exact walk_msg_depth_stable. Qed.
+Print Assumptions C06_p2j_walk_depth_stable.
+
+Theorem C06_p2j_walk_total :
+  forall f o Sc name bs, (length bs < f)%nat -> p2j_walk f o Sc name bs = p2j_walk (S (length bs)) o Sc name bs.
+Proof. exact p2j_walk_total. Qed.
+Print Assumptions C06_p2j_walk_total.
+
+(* one loop fuel lf for every loop and a nesting fuel df: lf >= |bs| and 2 df > |bs| give the model's answer *)
+Theorem C06_p2j_walk_f_total :
+  forall fl o Sc lf df name bs, (length bs <= lf)%nat -> (length bs < 2 * df)%nat ->
+  walk_msg_f fl o Sc lf df name bs = p2j_walk_gen fl (S (length bs)) o Sc name bs.
+Proof. exact p2j_walk_f_total. Qed.
+Print Assumptions C06_p2j_walk_f_total.
